@@ -8,10 +8,3 @@ ENGINES = [
 NOTES = ("Every check is bin/check <id>: regenerate Gen/*.v from /repo, full Coq build, Print Assumptions + hygiene grep, "
          "extraction, correspondence of the extracted model against the real functions, direct oracles; see DESIGN.md.")
 NOT_APPLICABLE = {}
-TEXT = {
-    "C04": {
-        "text": "Machine-checked proof over an executable model of escape.go and the escapeReader/escapeWriter of pipeline.go: round trip for every well-formed table, every payload and every destination size; streaming reader correct for every split of the escaped stream and every sequence of caller buffer sizes; no protected byte in any escaped output for clean tables; undefined pair rejected; both built-in tables (regenerated from the source on every run) are well-formed, clean and protect the bytes the property lists. The model is tied to the code by regenerated constants and by differential execution of the extracted model against the real functions.",
-        "note": "Trusted: Coq kernel, gen translator, ExtrOcamlBasic extraction, OCaml driver, Go harness. Modelled not verified: JSON/ISO-8859-1 decoding of the table, zstd in front of the escaper (arbitrary function), the message framing around the escaped payload (covered under C01).",
-        "technique": "Coq proof (induction over payload, chunk list and buffer sizes) + regenerated constants + extracted-model correspondence",
-    },
-}
